@@ -126,6 +126,8 @@ def rand_case(rng, max_o, max_s, max_f, p_incons=0.15, p_pres=0.15):
             l["syn"] = [f for f in order if f in keep]
         case["fnames"] = 1
         case["pres"] = None
+    if rng.random() < 0.15:   # an LCA structure was built on the same species tree while children were in another order
+        case["prime_lca"] = True
     if rng.random() < 0.3:    # trees decorated with branch lengths / supports
         case["dist"] = rng.randrange(1 << 30)
     if rng.random() < 0.25:   # same input object solved before under other costs (see recon.primed)
